@@ -628,3 +628,49 @@ def size_of_term(facts, t):
     if adt and adt.get('kind') == 'Struct' and len(adt['variants']) == 1 and len(adt['variants'][0]['fields']) == 1:
         return _PRIM_SIZE.get(adt['variants'][0]['fields'][0]['ty'])
     return None
+
+
+def literal_iteration(a, x):
+    """x: the item of a `for`/`for_each` loop over an array *literal* (`for p in [a, b, c]`, `[a, b, c].iter().for_each(..)`,
+    a helper taking `&[a, b, c]`): the Some payload of Iterator::next over that array, possibly dereferenced once.
+    -> the element terms in order, or None"""
+    derefs = 0
+    while x[0] == 'load' and not x[2]:
+        x = x[1]
+        derefs += 1
+    if not (x[0] == 'field' and x[1] == '0' and x[2][0] == 'variant' and x[2][1] == 'Some' and x[2][2][0] == 'call' and
+            x[2][2][1] == 'core::iter::Iterator::next' and len(x[2][2][2]) == 1):
+        return None
+    nx = x[2][2]
+    it = a.deref_val(nx[2][0], a.term_point(nx[3]))
+    src = it[2] if it[0] == 'mem' else it
+    by_ref = 0
+    for _ in range(6):
+        if src[0] == 'call' and src[1] in ('core::iter::IntoIterator::into_iter', 'core::iter::Iterator::by_ref') and len(src[2]) == 1:
+            src = src[2][0]
+            continue
+        if src[0] == 'call' and src[1].endswith('::iter') and len(src[2]) == 1:
+            src = src[2][0]
+            by_ref = 1
+            continue
+        break
+    # through references / unsizing to the array itself
+    for _ in range(6):
+        if src[0] == 'addr' and not src[2]:
+            if src[1][0] == 'local':
+                src = a.load(src[1], (), a.term_point(nx[3]))
+                by_ref = max(by_ref, 1)
+                continue
+            if src[1][0] == 'cell':
+                src = src[1][1]
+                by_ref = max(by_ref, 1)
+                continue
+        if src[0] == 'cast' and src[1].startswith('PointerCoercion(Unsize'):
+            src = src[3]
+            continue
+        break
+    if not (src[0] == 'agg' and src[1] == 'array'):
+        return None
+    if derefs != by_ref:
+        return None
+    return list(src[3])
